@@ -24,4 +24,14 @@ theorem pass_count_matches : sourcePassCount = passCount := by decide
 theorem flags_known : sourceFlagsBzr.git = false ∧ sourceFlagsGit.git = true ∧ sourceFlagsGit.dataByTreePath = true := by
   decide
 
+/-- **the source is the repaired variant** the positive theorems of Props/C14 assume: both
+extracted flag records have `previewFixed` (the preview accessors read an unmodified entry at its
+tree path — hypothesis of `preview_entry_eq_final`, `preview_eq_apply_disk`,
+`preview_eq_apply_per_path`) and `resolversFixed` (`by_parent().get`, guarded `cancel_creation`,
+loops of new entries left alone). -/
+theorem source_flags_fixed :
+    sourceFlagsBzr.previewFixed = true ∧ sourceFlagsGit.previewFixed = true ∧
+    sourceFlagsBzr.resolversFixed = true ∧ sourceFlagsGit.resolversFixed = true := by
+  decide
+
 end BreezyVerif.C14
